@@ -249,22 +249,37 @@ def check_tables(prog, rep, m):
     rep.add('T3', fang, entry, 'angle function at %d directions' % n, fang.node.lineno, not bad,
             'the sweep angle of (x, y) must be atan2(-(y - vy), x - vx) mod 2pi (5 axis cases + 4 quadrants); mismatches '
             '((dy, dx), got, want): %s' % bad[:4])
-    # call sites pass (x, y) = (col, row)
+    # call sites pass (x, y) = (col, row): every angle call takes its position from the `(row, col) = event position` unpack
+    # that precedes it - the second component as x, the first as y - and the same viewpoint (row, col) as that call
     okc = True
     nsites = 0
+    PPr = {r_: p_ for r_, p_ in zip(('etype', 'row', 'col', 'vrow', 'vcol'), PP)}
+    PAr = {r_: p_ for r_, p_ in zip(('col', 'row', 'vcol', 'vrow'), PA)}
+
+    def bound_txt(fn_, c):
+        b_ = dict(zip(fn_.params, [T(a) for a in c.args]))
+        b_.update({kw_.arg: T(kw_.value) for kw_ in c.keywords if kw_.arg})
+        return b_
     for f in m.funcs.values():
+        pos_unpacks = []
+        for n in f.own_nodes():
+            if isinstance(n, ast.Assign) and isinstance(n.value, ast.Call) and short(n.value) == '_calc_event_pos' and \
+                    isinstance(n.targets[0], ast.Tuple) and len(n.targets[0].elts) == 2:
+                pos_unpacks.append(n)
         for c in calls(f.node):
             if c in f.own_nodes() and short(c) == '_calculate_angle':
                 nsites += 1
-                b_ = dict(zip(fang.params, [T(a) for a in c.args]))
-                b_.update({kw_.arg: T(kw_.value) for kw_ in c.keywords if kw_.arg})
-                if [b_.get(p_) for p_ in PA] != ['ax', 'ay', 'vp_col', 'vp_row']:
+                prev = [n for n in pos_unpacks if n.lineno <= c.lineno]
+                if not prev:
                     okc = False
-            if c in f.own_nodes() and short(c) == '_calc_event_pos':
-                p = pm_assign_target(f, c)
-                if p is not None and p != ['ay', 'ax']:
+                    continue
+                pu = max(prev, key=lambda n: n.lineno)
+                ry, cx = [T(e) for e in pu.targets[0].elts]
+                ba, bp = bound_txt(fang, c), bound_txt(fpos, pu.value)
+                if ba.get(PAr['col']) != cx or ba.get(PAr['row']) != ry or ba.get(PAr['vcol']) != bp.get(PPr['vcol']) or \
+                        ba.get(PAr['vrow']) != bp.get(PPr['vrow']):
                     okc = False
-    rep.add('T3', m, entry, '%d angle call sites pass (ax, ay, vp_col, vp_row); positions unpacked as (ay, ax)' % nsites, 1,
+    rep.add('T3', m, entry, '%d angle call sites pass (column, row) of the event position as (x, y), with the viewpoint (column, row)' % nsites, 1,
             okc and nsites >= 6 and not roles.deviating(fang) and not roles.deviating(fpos),
             'x is the column coordinate and y the row coordinate at every call site')
 
@@ -293,37 +308,63 @@ def check_layouts(prog, rep, m):
         rep.add('T4', m, entry, '%s == %s - 3' % (a, e), 1, ok, 'the float half of an event is the event record from column 3 on')
     ok = consts.get('E_TYPE_ID') == 2 and consts.get('E_ANG_ID') == 3
     rep.add('T4', m, entry, 'E_TYPE_ID is the last integer field, E_ANG_ID the first float field', 1, ok, '')
-    # widths of the arrays that the constants index
-    widths = {}
+    # which record an array holds is read off the field constants it is subscripted with (per function: the same name may
+    # be another array elsewhere); local names do not matter
+    fam_of = {c_: fn_ for fn_, names_ in fam.items() for c_ in names_}
+    uses = {}         # (function, array name) -> [(constant, node)]
+    nsub = 0
+    for f in m.funcs.values():
+        for n in f.own_nodes():
+            if not isinstance(n, ast.Subscript):
+                continue
+            sl = n.slice.elts[-1] if isinstance(n.slice, ast.Tuple) and n.slice.elts else n.slice
+            base = n.value
+            if isinstance(base, ast.Subscript) and not isinstance(n.slice, ast.Tuple):
+                base = base.value          # arr[i][FIELD]
+            if not (isinstance(sl, ast.Name) and sl.id in fam_of and isinstance(base, ast.Name)):
+                continue
+            if sl.id in f.params or any(isinstance(x, ast.Name) and x.id == sl.id and isinstance(x.ctx, ast.Store) for x in ast.walk(f.node)):
+                continue
+            uses.setdefault((f.qualname, base.id), []).append((sl.id, n))
+            nsub += 1
+    bad = []
+    for (fq, arr), lst in sorted(uses.items()):
+        fams = {fam_of[c_] for c_, n_ in lst}
+        # the float half of an event (AE) and the event record (E) are different arrays; a node value row may be read with
+        # the TNV constants only, a tree link row with the TNS constants only
+        if len(fams) > 1:
+            bad.append('%s in %s is subscripted with fields of %s' % (arr, fq, sorted(fams)))
+    rep.add('T4', m, entry, '%d constant field subscripts on %d arrays checked' % (nsub, len(uses)), 1, not bad and nsub >= 40,
+            'the field constants used on one array must all belong to the same record: %s' % bad[:5])
+    # widths: an array allocated with a constant record width must cover every field used on it
+    sizes = {fn_: len(names_) for fn_, names_ in fam.items()}
+    nw = 0
     for f in m.funcs.values():
         for n in f.own_nodes():
             if isinstance(n, ast.Assign) and isinstance(n.targets[0], ast.Name) and isinstance(n.value, ast.Call) and \
-                    short(n.value) == 'zeros' and n.value.args:
-                shp = const(n.value.args[0]) if not isinstance(n.value.args[0], ast.Tuple) else None
+                    short(n.value) in ('zeros', 'empty', 'ones', 'full') and n.value.args:
                 a0 = n.value.args[0]
-                if isinstance(a0, ast.Tuple) and isinstance(const(a0.elts[-1]), int):
-                    widths[n.targets[0].id] = const(a0.elts[-1])
-    need = {'event_list': 7, 'status_values': 8, 'status_struct': 4, 'status_node': 7, 'e': 7}
-    for name, w in need.items():
-        rep.add('T4', m, entry, 'array %s allocated with width %s' % (name, widths.get(name)), 1, widths.get(name) == w,
-                'record width must cover every field index used on it (needs %d)' % w)
-    # every constant subscript on these arrays within bounds
-    limit = {'e': ('E', 7), 'e_rct': ('E', 3), 'e_ae': ('AE', 4), 'status_node': ('TNV', 7), 'node_value': ('TNV', 8)}
-    nsub = 0
-    bad = []
-    for f in m.funcs.values():
-        for n in f.own_nodes():
-            if isinstance(n, ast.Subscript) and isinstance(n.value, ast.Name) and n.value.id in limit and isinstance(n.slice, ast.Name):
-                if n.slice.id in f.params or any(isinstance(x, ast.Name) and x.id == n.slice.id and isinstance(x.ctx, ast.Store)
-                                                 for x in ast.walk(f.node)):
-                    continue        # a local index variable (a loop over a field range), not a field constant
-                c = consts.get(n.slice.id)
-                famname, w = limit[n.value.id]
-                nsub += 1
-                if c is None or c >= w or n.slice.id not in fam[famname]:
-                    bad.append('%s[%s] in %s' % (n.value.id, n.slice.id, f.qualname))
-    rep.add('T4', m, entry, '%d constant field subscripts checked' % nsub, 1, not bad and nsub >= 40,
-            'a field constant must belong to the record it indexes and lie inside its width: %s' % bad[:5])
+                w = const(a0.elts[-1]) if isinstance(a0, ast.Tuple) and a0.elts else None
+                if not isinstance(w, int) or isinstance(w, bool) or w > 16:
+                    continue
+                name = n.targets[0].id
+                used = [c_ for c_, n_ in uses.get((f.qualname, name), [])]
+                nw += 1
+                if used:
+                    # the record it holds is known from the fields used on it: all of that record's fields must fit (a node
+                    # row that is never asked for its subtree maximum may leave that last field out)
+                    fn_ = fam_of[used[0]]
+                    need_w = max(max(consts[c_] for c_ in used) + 1,
+                                 sizes[fn_] - (1 if fn_ == 'TNV' and 'TN_MAX_GRAD_ID' not in used else 0))
+                    okw = w >= need_w
+                    why = 'it holds %s records (%d fields needed)' % (fn_, need_w)
+                else:
+                    okw = w in set(sizes.values()) | {sizes['TNV'] - 1}
+                    why = 'its fields are used in other functions: the width must be a record width %s' % sorted(set(sizes.values()) | {sizes['TNV'] - 1})
+                rep.add('T4', f, entry, 'array %s allocated with record width %s' % (name, w), n.lineno, okw,
+                        'record width must cover every field index used on it; ' + why)
+    if nw < 5:
+        rep.add('T4', m, entry, 'record arrays', 1, None, 'only %d allocations with a constant record width found (5 expected)' % nw)
 
 
 def check_encoding(prog, rep, m):
@@ -370,9 +411,31 @@ def check_encoding(prog, rep, m):
     rep.add('T5', cpu, entry, 'visibility grid %s filled with INVISIBLE' % grid, cpu.node.lineno, ok,
             'every cell starts invisible: the grid handed to the kernels must be a float64 array of the raster\'s shape filled with INVISIBLE')
     init = m.funcs.get('_init_event_list')
-    ok = any(isinstance(n, ast.If) and T(n.test) == 'i==vp_rowandj==vp_col' and
-             any(T(s) == '_set_visibility(visibility_grid,i,j,180)' for s in n.body) and isinstance(n.body[-1], ast.Continue)
-             for n in init.own_nodes())
+    # the cell whose (row, column) loop variables equal the viewpoint's: written 180 at those very indices, then skipped
+    ok = False
+    for n in init.own_nodes():
+        if not (isinstance(n, ast.If) and isinstance(n.test, ast.BoolOp) and isinstance(n.test.op, ast.And) and len(n.test.values) == 2 and
+                n.body and isinstance(n.body[-1], ast.Continue)):
+            continue
+        eqs = []
+        for v_ in n.test.values:
+            if isinstance(v_, ast.Compare) and len(v_.ops) == 1 and isinstance(v_.ops[0], ast.Eq) and isinstance(v_.left, ast.Name) and \
+                    isinstance(v_.comparators[0], ast.Name):
+                a_, b_ = v_.left.id, v_.comparators[0].id
+                eqs.append((b_, a_) if a_ in init.params else (a_, b_))     # (loop variable, viewpoint parameter)
+        if len(eqs) != 2 or not all(p_ in init.params for v_, p_ in eqs):
+            continue
+        pr = [p_ for p_ in init.params if 'row' in p_ and p_ in [e[1] for e in eqs]]
+        pc = [p_ for p_ in init.params if 'col' in p_ and p_ in [e[1] for e in eqs]]
+        if len(pr) != 1 or len(pc) != 1:
+            continue
+        rowv = [v_ for v_, p_ in eqs if p_ == pr[0]][0]
+        colv = [v_ for v_, p_ in eqs if p_ == pc[0]][0]
+        for s_ in n.body:
+            c = s_.value if isinstance(s_, ast.Expr) else None
+            if isinstance(c, ast.Call) and short(c) == '_set_visibility' and len(c.args) == 4 and T(c.args[0]) in init.params and \
+                    T(c.args[1]) == rowv and T(c.args[2]) == colv and const(c.args[3]) == 180:
+                ok = True
     rep.add('T5', init, entry, 'observer cell = 180 and generates no events', init.node.lineno, ok, '')
     sv = m.funcs.get('_set_visibility')
     ok = sv is not None and any(T(s) == 'visibility_grid[i][j]=value' or T(s) == 'visibility_grid[i,j]=value' for s in sv.own_nodes())
